@@ -348,6 +348,59 @@ func ruleC18RegionSuffixResolvedOnEveryPath(c *Ctx) {
 		}
 	})
 	c.check(stored, "metastore.NewDynamoDB/suffix-store", u.pos(f.Pos()), "regionSuffix assigned in the constructor", "NewDynamoDB no longer assigns regionSuffix")
+	// the suffix is read from the client the metastore ends up with: it is resolved after the client has been
+	// defaulted, and under no other condition than the enabled flag
+	var svcStores []ssa.Instruction
+	allInstrs(f, func(i ssa.Instruction) {
+		if st, ok := i.(*ssa.Store); ok {
+			if _, fld, isF := fieldAccess(st.Addr); isF && fld == "svc" {
+				svcStores = append(svcStores, i)
+			}
+		}
+	})
+	checkStore := func(site ssa.Instruction, st ssa.Instruction) {
+		c.CallSites++
+		late := ""
+		for _, sv := range svcStores {
+			if !instrDominates(sv, site) && blockReaches(site.Block(), sv.Block()) {
+				late = u.ipos(sv)
+			}
+		}
+		// conditions between the enabled test and the store (walking up the dominators until the enabled test is met)
+		extra := ""
+	walk:
+		for d := st.Block().Idom(); d != nil; d = d.Idom() {
+			for _, fct := range factsFromIf(d, st.Block()) {
+				if strings.HasSuffix(trimAddr(accessPath(fct.V)), ".regionSuffixEnabled") && fct.True {
+					break walk
+				}
+				extra = describeLeaf(fct.V)
+			}
+		}
+		switch {
+		case late != "":
+			c.bad("metastore.NewDynamoDB/suffix-after-client", u.ipos(site), "the region suffix is resolved before the client is defaulted ("+late+"): with the default client the suffix is taken from a client that is not there yet — it stays empty (or panics), and two regions of a global table write the same un-suffixed key ids over each other")
+		case extra != "":
+			c.bad("metastore.NewDynamoDB/suffix-after-client", u.ipos(st), "the region suffix is resolved only under a further condition ("+extra+") besides the enabled flag: on the other branch an enabled suffix silently stays empty")
+		default:
+			c.ok("metastore.NewDynamoDB/suffix-after-client", u.ipos(site), "resolved from the final client, under the enabled flag alone")
+		}
+	}
+	allInstrs(f, func(i ssa.Instruction) {
+		if isSuffixStore(i) {
+			checkStore(i, i)
+			return
+		}
+		if _, isCall := i.(*ssa.Call); isCall {
+			if h := staticCallee(i); h != nil && h.Blocks != nil && h.Pkg == f.Pkg {
+				allInstrs(h, func(j ssa.Instruction) {
+					if isSuffixStore(j) {
+						checkStore(i, j)
+					}
+				})
+			}
+		}
+	})
 }
 
 // ---------------------------------------------------------------------------------------------
